@@ -835,7 +835,26 @@ def asarray(x, dtype=None):
     if hasattr(x, '_asarray'):
         return x._asarray()
     if isinstance(x, SymSeq):
-        first = None
+        if is_sym(x.length):
+            # rows of a symbolic number of rows: the row structure is read off row 0 (every row is built by the same expression)
+            probe = x.at(0)
+            if isinstance(probe, Maybe):
+                probe = probe.val
+            if isinstance(probe, (list, tuple, NDArray, SymSeq)):
+                inner = asarray(probe, dtype)
+                if inner.ndim != 1:
+                    raise Unsupported('array from a symbolic number of multi-dimensional rows')
+                width = inner.shape[0]
+
+                def fn2(i):
+                    row = x.at(i[0])
+                    row = asarray(row, dtype)
+                    return row.fn((i[1],))
+
+                def mfn2(i):
+                    row = asarray(x.at(i[0]), dtype)
+                    return row.mask_fn((i[1],)) if row.mask_fn is not None else False
+                return NDArray((x.length, width), fn2, as_dtype(dtype, inner.dtype), mfn2 if inner.mask_fn is not None else None)
         return NDArray((x.length,), lambda i: x.at(i[0]), as_dtype(dtype, _guess_dtype_seq(x)))
     if isinstance(x, (list, tuple)):
         items = list(x)
@@ -1363,8 +1382,26 @@ def selection_of_mask(mask: NDArray) -> Selection:
     shp = mask.shape
     total = prod(shp)
     mfrozen = mask.frozen()
-    sel = Selection(total, lambda n: truthy(mfrozen.fn(unravel(n, shp))))
+    keep = lambda n: truthy(mfrozen.fn(unravel(n, shp)))
+    # SELECTION-EXTENSIONALITY: two boolean arrays that are equal entry by entry select the same entries -- one enumeration.
+    # (decided with a fresh probe index; only an unsat answer unifies)
+    c = core.ctx()
+    if c.check_feasible and mask.ndim == 1:
+        for other in getattr(c, 'mask_selections', []):
+            if not (same(other.total, total) or (is_sym(total) and is_sym(other.total) and z3.eq(zint(other.total), zint(total)))):
+                continue
+            probe = mk_int(z3.Int(c._name('ext_probe')))
+            inr = z3.And(probe.z >= 0, probe.z < zint(total))
+            if not c.feasible(z3.And(inr, zbool(keep(probe)) != zbool(other.keep(probe)))):
+                c.lib_used.add('SELECTION-EXTENSIONALITY')
+                mask._selection = other
+                return other
+    sel = Selection(total, keep)
     mask._selection = sel
+    reg = getattr(c, 'mask_selections', None)
+    if reg is None:
+        reg = c.mask_selections = []
+    reg.append(sel)
     return sel
 
 
